@@ -221,6 +221,20 @@ CHECKS = {
         technique="TLC-enumerated program variants run twice through the code; TLC trace validation of the second run",
         engine="tlc-gen+trace",
     ),
+    "C19": dict(
+        category="model_checking",
+        text="LinePipe.tla enumerates every document of <= 3 (thorough 4) lines (line matches / carries a finding) x {plain, SAST, SAST "
+        "without results} x line endings x final newline x dry-run with the reference outcome (edited lines, findings per change, "
+        "unfixed findings, file written or not); XmlDocs.tla enumerates abstract XML documents (target / other / namespaced elements, "
+        "attribute subsets, entity text, CDATA, comments, PIs, four DOCTYPE forms, nesting; deeper ones sampled) x {attribute map, new "
+        "element} x finding selections and computes the edited abstract document; every scenario is replayed through the public "
+        "pipeline classes; XML output is parsed with expat and compared as event lists with the expected document.",
+        design_ref="DESIGN.md §5 C19",
+        note="Trusted: TLC, expat, the renderer of abstract documents, harness/patch.py. Documents the pipeline declines and leaves "
+        "untouched (external DTD references, refused on purpose) are not judged. DTD internal subsets are not generated.",
+        technique="TLA+ reference semantics enumerated by TLC + replay of every behaviour into the public pipeline classes",
+        engine="tlc-gen+trace",
+    ),
 }
 
 NOT_APPLICABLE: list[dict] = []
